@@ -4,7 +4,7 @@
     [rsum f n] = f 0 + ... + f (n-1); [dlt] = Kronecker delta; [ment M i j] = entry (i,j) of a list-of-rows matrix.
     All statements are over the reals, for every dimension. *)
 From Coq Require Import Reals List.
-From LP Require Import Num NumR C15_Model C15_Proofs C15_Proofs_QR C15_Proofs_Scale C15_Proofs_Iter C15_Proofs_Session C15_Proofs_Inv C15_Proofs_Diag C15_Proofs_Stop C15_Proofs_Gap.
+From LP Require Import Num NumR C15_Model C15_Proofs C15_Proofs_QR C15_Proofs_Scale C15_Proofs_Iter C15_Proofs_Session C15_Proofs_Inv C15_Proofs_Diag C15_Proofs_Stop C15_Proofs_Gap C15_Model2 C15_Proofs_Helpers Gen_C15_Formulas C15_GenTie.
 Import ListNotations.
 Local Open Scope R_scope.
 
@@ -519,3 +519,76 @@ Theorem C15_rayleigh_shift_selects_on_diagonal (d : list R) i j : graded d -> (l
   100 * Rabs (nth i d 0 - rayleigh_shift (diagm d) (nth i d 0)) <= Rabs (nth j d 0 - rayleigh_shift (diagm d) (nth i d 0)).
 Proof. exact (rayleigh_shift_selects_diagonal d i j). Qed.
 Print Assumptions C15_rayleigh_shift_selects_on_diagonal.
+
+(** ** Seventh pass: the helper code brought into the model (C15_Model2.v) *)
+
+(** "Relative_Difference used as convergence metric (NaN for 0/0)": the metric as the code has it now is a total function of two reals:
+    0 at (0, 0), inside [0, 2], symmetric, and 0 exactly when the two arguments are equal *)
+Theorem C15_relative_difference_total_metric (a b : R) :
+  (relative_difference ROps 0 0 = 0) /\ (0 <= relative_difference ROps a b <= 2) /\ (relative_difference ROps a b = relative_difference ROps b a) /\ (relative_difference ROps a b = 0 <-> a = b).
+Proof. exact (conj reldiff_zero_zero (conj (reldiff_range a b) (conj (reldiff_sym a b) (reldiff_eq0 a b)))). Qed.
+Print Assumptions C15_relative_difference_total_metric.
+Theorem C15_relative_difference_example : relative_difference ROps 3 1 = 2 / 3.
+Proof. exact reldiff_example. Qed.
+Print Assumptions C15_relative_difference_example.
+
+(** Sign(x, y) as Householder_Matrix uses it (alpha = Sign(|x|, -x0)): for non-zero arguments it is |x| with the sign of y, and its square is x^2 *)
+Theorem C15_sign_transfers_sign (x y : R) : x <> 0 -> y <> 0 ->
+  sign_xy ROps x y = (if Rltb 0 y then Rabs x else - Rabs x) /\ sign_xy ROps x y * sign_xy ROps x y = x * x.
+Proof. exact (fun Nx Ny => conj (sign_xy_transfer x y Nx Ny) (sign_xy_sq x y)). Qed.
+Print Assumptions C15_sign_transfers_sign.
+
+(** the guards of Matrix::Trace, Determinant, Invertible, Inverse (every number type, doubles included): a request that is not square
+    ends the process in Trace, Determinant and Inverse, and Invertible() is false *)
+Theorem C15_nonsquare_requests_rejected {T} (Ops : NumOps T) (m : list (list T)) : msquare m = false ->
+  mtrace Ops m = Exit /\ determinant_g Ops m = Exit /\ invertible Ops m = false /\ inverse_g Ops m = Exit.
+Proof. exact (guards_nonsquare Ops m). Qed.
+Print Assumptions C15_nonsquare_requests_rejected.
+Theorem C15_nonsquare_example : msquare [[1; 2; 3]; [4; 5; 6]] = false.
+Proof. exact guards_example. Qed.
+
+(** Matrix::Inverse with its guards in front: whatever it returns for an n x n matrix passed the guards (square, Determinant() != 0.0)
+    and is a left inverse with trivial kernel *)
+Theorem C15_guarded_inverse_is_left_inverse n (m minv : list (list R)) : wf n m -> inverse_g ROps m = Ok minv ->
+  wf n minv /\ (forall i j, (i < n)%nat -> (j < n)%nat -> rsum (fun k => ment ROps minv i k * ment ROps m k j) n = dlt i j) /\ nonsing n (ment ROps minv).
+Proof. exact (inverse_g_correct n m minv). Qed.
+Print Assumptions C15_guarded_inverse_is_left_inverse.
+
+(** "sums to the trace", read on the library's own Matrix::Trace: for every n x n matrix Trace returns the sum of the diagonal, and what
+    Eigenvalues returns for a non-singular M adds up to exactly the value Trace returns *)
+Theorem C15_library_trace n (m : list (list R)) : wf n m -> mtrace ROps m = Ok (trace n (ment ROps m)).
+Proof. exact (mtrace_wf n m). Qed.
+Print Assumptions C15_library_trace.
+Theorem C15_eigenvalues_sum_is_library_trace n (M : list (list R)) evs t : wf n M -> nonsing n (ment ROps M) ->
+  eigenvalues ROps M = Ok evs -> mtrace ROps M = Ok t -> ls evs = t.
+Proof. exact (eigenvalues_sum_is_library_trace n M evs t). Qed.
+Print Assumptions C15_eigenvalues_sum_is_library_trace.
+Theorem C15_library_trace_example : mtrace ROps [[1; 2]; [3; 4]] = Ok 5.
+Proof. exact mtrace_example. Qed.
+
+(** Eigenvectors(M) = Eigensystem(M).second (every number type) *)
+Theorem C15_eigenvectors_are_eigensystem_second {T} (Ops : NumOps T) (m : list (list T)) vs :
+  eigenvectors Ops m = Ok vs <-> exists ps, eigensystem Ops m = Ok ps /\ vs = map snd ps.
+Proof. exact (eigenvectors_spec Ops m vs). Qed.
+Print Assumptions C15_eigenvectors_are_eigensystem_second.
+
+(** T-tie: the terms regenerated from src/Special_Functions.cpp on every run are the hand model, in every arithmetic in which the
+    literals 0.0 and 1.0 are the numbers 0 and 1 ([LitLaws]; it holds in the reals: [C15_literal_laws_hold_in_R]) *)
+Theorem C15_generated_Sign_is_model {T} (Ops : NumOps T) : LitLaws Ops -> forall x, g_Sign Ops x = sign_int Ops x.
+Proof. exact (tie_Sign Ops). Qed.
+Print Assumptions C15_generated_Sign_is_model.
+Theorem C15_generated_Sign2_is_model {T} (Ops : NumOps T) : LitLaws Ops -> forall x y, g_Sign2 Ops x y = sign_xy Ops x y.
+Proof. exact (tie_Sign2 Ops). Qed.
+Print Assumptions C15_generated_Sign2_is_model.
+Theorem C15_generated_Relative_Difference_is_model {T} (Ops : NumOps T) : LitLaws Ops ->
+  forall a b, g_Relative_Difference Ops a b = relative_difference Ops a b.
+Proof. exact (tie_Relative_Difference Ops). Qed.
+Print Assumptions C15_generated_Relative_Difference_is_model.
+(** alpha of Householder_Matrix (C15_Model.householder_alpha, built on Num.sign2) is the generated Sign(x.Norm(), -x[0]) *)
+Theorem C15_generated_Sign2_is_householder_alpha {T} (Ops : NumOps T) : LitLaws Ops ->
+  forall x : list T, householder_alpha Ops x = g_Sign2 Ops (vnorm Ops x) (nneg Ops (nth0 Ops x 0)).
+Proof. exact (tie_householder_alpha Ops). Qed.
+Print Assumptions C15_generated_Sign2_is_householder_alpha.
+Theorem C15_literal_laws_hold_in_R : LitLaws ROps.
+Proof. exact ROps_LitLaws. Qed.
+Print Assumptions C15_literal_laws_hold_in_R.
